@@ -36,7 +36,7 @@ EXHAUSTIVE_DOMAINS = {
 }
 REJECT = (TypeError, ValueError, KeyError)
 DERIVE = ['same', 'min+', 'min-', 'max+', 'max-', 'nomin', 'nomax', 'noneable', 'default', 'frozen',
-          'size+', 'size-', 'elem', 'enum-', 'enum+', 'field+', 'field-', 'cand+', 'kind', 'inner', 'to-enum', 'nomaxsize', 'redefault']
+          'size+', 'size-', 'elem', 'enum-', 'enum+', 'field+', 'field-', 'cand+', 'kind', 'inner', 'to-enum', 'nomaxsize', 'redefault', 'xform']
 
 
 OVERLAP_VALUES = [True, False, -1, 0, 1, 2, 3, 's']
@@ -233,6 +233,15 @@ def _derive(d, kind, arg):
     if hi is not None and hi < lo:
       hi = lo
     d['min'], d['max'] = lo, hi
+    return d
+  if kind == 'xform' and t not in ('union', 'any'):
+    # the same spec with a user transform (the identity) and a default (applied through it when the spec is built)
+    if d.get('xform'):
+      d.pop('xform')
+    else:
+      d['xform'] = True
+      if arg % 2 and not d.get('frozen'):
+        d.setdefault('default', [arg])
     return d
   if kind == 'nomaxsize' and t in ('list', 'vtuple'):
     d['max'] = None
